@@ -9,4 +9,4 @@ trap 'rm -rf "$d"' EXIT
 mkdir -p "$d/repo"
 cp -r /repo/src "$d/repo/src"
 ( cd "$d/repo" && patch -p1 -s < "$patch" ) || { echo "PATCH-FAILED $patch"; exit 4; }
-VERIF_REPO_SRC="$d/repo/src" "$@"
+VERIF_REPO_SRC="$d/repo/src" PYTHONPATH="$d/repo/src${PYTHONPATH:+:$PYTHONPATH}" "$@"
